@@ -1,6 +1,7 @@
 import BW.Model.Query
 import BW.Model.QueryPost
 import BW.Spec.Query
+import BW.Spec.Having
 import BW.Generated.MemoryFacts
 import Driver.Proto
 
@@ -259,7 +260,7 @@ def runSpec (st : St) (q : Stmt) (having : List HTok) : String :=
       let mixedKeyBefore := q.orderBy.any fun (k, _) => (dedupNat (rows.map fun r => cellKind ((r.get k).getD .null))).length > 1
       let hv : Except HErr (List Row) :=
         if q.hasHaving then
-          match newEvaluator having with
+          match specEvaluator having with
           | some e => havingFilter S e rows
           | none => .error .badConstant
         else .ok rows
